@@ -17,7 +17,9 @@ EXPLANATION = (
     'default that throws invalid_argument (shared with C18); (D4) dominating guards: sigma == 0 is rejected before the shift is '
     'installed in buckling and Cayley mode, a zero start vector is rejected before the first operator application, every '
     'factorizing wrapper constructor rejects exactly the non-square shapes (guard evaluated on all shapes up to 3x3); (D5) no '
-    'raw owning pointer: a constructor that throws leaks nothing. Evaluation here means evaluating ONE extracted integer '
+    'raw owning pointer: a constructor that throws leaks nothing; (D6) in every validating constructor no object is constructed or resized with a size that '
+    'depends on nev / ncv before the range guards -- followed through the constructors of Spectra members and through fields initialised from the arguments -- '
+    'so an out-of-range argument meets the guard first and not an allocation. Evaluation here means evaluating ONE extracted integer '
     'predicate on a finite grid that determines it (unit-coefficient linear inequalities): no library code is run.')
 ASSUMPTIONS = ['members already constructed are destroyed when a constructor throws (language rule)']
 
@@ -270,8 +272,124 @@ def square_guards(ctx, rule='square-matrix-guard'):
             ctx.check(not problems, rule, w, fn.qname, 'rejects exactly the non-square (or mismatching) shapes up to 3x3' if not problems else '; '.join(problems))
 
 
+
+INT_T = ('long', 'int', 'unsigned long', 'unsigned int', 'Eigen::Index', 'std::size_t', 'const long', 'const int', 'long long')
+SIZED_CALLS = ('resize', 'conservativeResize', 'reserve', 'setZero', 'setOnes', 'setConstant', 'setRandom', 'setLinSpaced')
+
+
+def _leaves(fn, nid):
+    """('P', name) / ('F', name) leaves of an expression."""
+    out = set()
+    for x in fn.walk(nid):
+        if x['k'] == 'DeclRefExpr' and 'var' in x and x['var'] in fn.params:
+            out.add(('P', fn.locals[x['var']]['name']))
+        elif x['k'] == 'MemberExpr' and x.get('mk') == 'field':
+            out.add(('F', x['member']))
+    return out
+
+
+def _sized_allocations(F, fn, tainted, depth=0, seen=None):
+    """[(function, node, what)]: constructions / resizes in fn (initialiser list and body, and the constructors they run) whose size
+    depends on a tainted parameter or on a field initialised from one.  `tainted` = set of ('P', name) / ('F', name)."""
+    if seen is None:
+        seen = set()
+    key = (fn.mangled or fn.qname, tuple(sorted(tainted)))
+    if key in seen or depth > 6:
+        return []
+    seen.add(key)
+    tainted = set(tainted)
+    out = []
+    roots = []
+    for i in fn.inits:
+        if i['expr'] >= 0:
+            roots.append((i, i['expr']))
+    if fn.d.get('body', -1) is not None and fn.d.get('body', -1) >= 0:
+        roots.append((None, fn.d['body']))
+    for i, root in roots:
+        for x in fn.walk(root):
+            k = x['k']
+            if k in ('CXXConstructExpr', 'CXXTemporaryObjectExpr') and (x.get('cls') or '').startswith(('Eigen::', 'std::vector')):
+                args = fn.call_args(x)
+                if args and x.get('targs') and all(t in INT_T for t in x['targs']):
+                    lv = set()
+                    for a in args:
+                        lv |= _leaves(fn, a['id'])
+                    if lv & tainted:
+                        out.append((fn, x, '%s sized by %s' % (fn.s(x)[:50], sorted(n for _, n in lv & tainted))))
+            elif k == 'CXXMemberCallExpr' and x.get('callee') in SIZED_CALLS and (x.get('cls') or '').startswith(('Eigen::', 'std::vector')):
+                args = fn.call_args(x)
+                lv = set()
+                for a in args:
+                    lv |= _leaves(fn, a['id'])
+                if args and lv & tainted:
+                    out.append((fn, x, '%s sized by %s' % (fn.s(x)[:50], sorted(n for _, n in lv & tainted))))
+            elif k in ('CXXConstructExpr', 'CXXTemporaryObjectExpr') and (x.get('cls') or '').startswith(('Spectra::', 'SpectraControl::')):
+                callee = F.resolve(x)
+                if callee is None or not callee.d.get('ctor'):
+                    continue
+                args = fn.call_args(x)
+                t2 = set()
+                for a, pv in zip(args, callee.params):
+                    if _leaves(fn, a['id']) & tainted:
+                        t2.add(('P', callee.locals[pv]['name']))
+                if t2:
+                    out += _sized_allocations(F, callee, t2, depth + 1, seen)
+        # a field initialised from a tainted expression is tainted for the later initialisers and the body
+        if i is not None and i['member'] not in ('<base>', '<delegating>') and _leaves(fn, root) & tainted:
+            tainted.add(('F', i['member']))
+    return out
+
+
+def validation_precedes_allocation(ctx, rule='no-allocation-sized-by-unvalidated-argument', min_instances=6):
+    """An out-of-range (nev, ncv) must be answered by std::invalid_argument -- not by whatever an allocation of a negative or
+    absurd size does first (std::bad_alloc with Eigen's assertions off, abort with them on).  In every validating constructor:
+    no object is constructed or resized with a size that depends on nev / ncv in the member-initialiser list (which runs before
+    the range guards in the body), transitively through the constructors of Spectra members; in the body such allocations are
+    dominated by every range guard."""
+    n = 0
+    for tmpl in sorted(DOC_RANGES):
+        for fn in [f for f in ctx.F.concrete() if f.cls == tmpl and f.d.get('ctor')]:
+            pn = set(fn.locals[v]['name'] for v in fn.params)
+            taint = set(('P', x) for x in pn if x in ('nev', 'ncv') or 'number_eigenvalues' in x or 'search_space' in x)
+            if not taint:
+                if any(i['member'] == '<delegating>' for i in fn.inits):
+                    continue
+                raise AnalysisBroken('%s: no nev / ncv parameter recognised among %s' % (fn.qname, sorted(pn)))
+            inst = '%s::%s' % (tmpl.replace('Spectra::', ''), fn.name)
+            ev_ = _sized_allocations(ctx.F, fn, taint)
+            guards = [g for g, t in guards_of_throws(fn)]
+            helpers = [c['id'] for c in fn.walk() if c['k'] == 'CXXMemberCallExpr' and c.get('org') == 'S' and ctx.F.resolve(c) is not None and guards_of_throws(ctx.F.resolve(c))]
+            bad = []
+            for g, x, what in ev_:
+                in_body = g is fn and fn.d.get('body', -1) >= 0 and fn.within(x['id'], fn.d['body'])
+                if in_body:
+                    stops = set(gd['cond'] for gd in guards) | set(helpers)
+                    # every guard (or validating helper) dominates the allocation (a guard = any part of its condition)
+                    ok = bool(stops) and all(paths.dominated_by(fn, fn.pos_of(x), lambda m, s_=s_: fn.within(m['id'], s_)) for s_ in stops)
+                    if not ok:
+                        bad.append('%s at %s is not dominated by every range guard' % (what, fn.loc(x)))
+                else:
+                    bad.append('%s at %s runs in the member-initialiser list%s, before the range guards of the constructor body' %
+                               (what, g.loc(x), '' if g is fn else ' (through the constructor %s)' % g.qname.split('<')[0].split('::')[-1]))
+            n += 1
+            ctx.check(not bad, rule, inst, fn.qname,
+                      'no construction or resize sized by nev / ncv before the range guards (%d sized allocations after them)' % len(ev_)
+                      if not bad else '; '.join(bad[:3]) + ': an out-of-range argument (negative ncv) reaches the allocation first and is answered by std::bad_alloc / an Eigen assertion instead of std::invalid_argument')
+    if n < min_instances:
+        raise AnalysisBroken('only %d validating constructors analysed' % n)
+    # positive control: the control constructor allocates through a member's constructor before its guard, and once after it
+    ctl = [f for f in ctx.C.concrete() if f.qname == 'SpectraControl::LateValidation::LateValidation']
+    if not ctl:
+        raise AnalysisBroken('positive control constructor LateValidation not analysed')
+    ev_ = _sized_allocations(ctx.C, ctl[0], {('P', 'nev'), ('P', 'ncv')})
+    early = [e for e in ev_ if e[0] is not ctl[0]]
+    late = [e for e in ev_ if e[0] is ctl[0] and paths.dominated_by(ctl[0], ctl[0].pos_of(e[1]), lambda m: any(ctl[0].within(m['id'], g['cond']) for g, _ in guards_of_throws(ctl[0])))]
+    if len(early) != 1 or len(late) != 1:
+        raise AnalysisBroken('positive control for allocation-before-validation not matched exactly (early %d, late %d)' % (len(early), len(late)))
+
 def run(ctx):
     range_guards(ctx)
+    validation_precedes_allocation(ctx)
     thrown_types(ctx)
     c18.dispatch(ctx)
     sigma_guards(ctx)
